@@ -315,6 +315,10 @@ class _SpyneJsonRpc1(JsonDocument):
 
         ctx.protocol.error = False
         if err is not None:
+            if message is self.REQUEST:
+                # a fault is what a server answers with, not something to call
+                raise ValidationError(err, "A fault is not a request")
+
             ctx.in_body_doc = err
             ctx.protocol.error = True
         else:
@@ -355,9 +359,9 @@ class _SpyneJsonRpc1(JsonDocument):
                 headers = [None] * len(header_class)
                 for i, (header_doc, head_class) in enumerate(
                                           zip(ctx.in_header_doc, header_class)):
-                    if header_doc is not None and i < len(header_doc):
+                    if header_doc is not None:
                         headers[i] = self._doc_to_object(ctx, head_class,
-                                                                     header_doc)
+                                                    header_doc, self.validator)
 
                 if len(headers) == 1:
                     ctx.in_header = headers[0]
@@ -368,7 +372,7 @@ class _SpyneJsonRpc1(JsonDocument):
                 ctx.in_object = [None] * len(body_class._type_info)
             else:
                 ctx.in_object = self._doc_to_object(ctx, body_class,
-                                                                ctx.in_body_doc)
+                                                ctx.in_body_doc, self.validator)
 
         self.event_manager.fire_event('after_deserialize', ctx)
 
